@@ -43,7 +43,7 @@ GOENV = {
 }
 
 
-def S(pkg, run, kind="rapid", q=0, t=0, shards=1, race=False, timeout_q=240, timeout_t=1500,
+def S(pkg, run, kind="rapid", q=0, t=0, shards=1, race=False, timeout_q=900, timeout_t=1500,
       env=None, fuzz=None, fuzztime_t=0, quick=True, thorough=True, steps=None):
     """One stage of a check.
     kind: rapid  -> -rapid.checks=q|t, sharded by seed in the thorough tier
